@@ -232,6 +232,7 @@ func packDomainName(s string, msg []byte, off int, compression compressionMap, c
 		compOff   int
 		bs        []byte
 		wasDot    bool
+		nameLen   int // wire octets of the labels seen so far
 	)
 loop:
 	for i := 0; i < ls; i++ {
@@ -282,6 +283,13 @@ loop:
 				return len(msg), ErrRdata
 			}
 
+			// The whole name, including the root label, is limited to 255
+			// octets on the wire; UnpackDomainName enforces the same limit.
+			nameLen += 1 + labelLen
+			if nameLen+1 > maxDomainNameWireOctets {
+				return len(msg), ErrLongDomain
+			}
+
 			// off can already (we're in a loop) be bigger than len(msg)
 			// this happens when a name isn't fully qualified
 			if off+1+labelLen > len(msg) {
@@ -300,6 +308,10 @@ loop:
 
 					// If compress is true, we're allowed to compress this dname
 					if compress {
+						// The labels replaced by the pointer count towards the limit too.
+						if nameLen-(1+labelLen)+escapedNameLen(s[compBegin:])+1 > maxDomainNameWireOctets {
+							return len(msg), ErrLongDomain
+						}
 						pointer = p // Where to point to
 						break loop
 					}
